@@ -51,6 +51,25 @@ def matchSpecHolds (n : Nat) (obs : Sx) : Bool :=
       (pairs.mergeSort (fun a b => a.1 ≤ b.1)) == (List.range n).map (fun k => (k + 1, k + 1))
   | _, _ => false
 
+/-- a schedule on which a polling response ran out of tries before its request was registered
+    (a timeout, not an interleaving the pairing must survive): still no wrong pair, no pair twice,
+    and what waits in the matcher are requests that were not answered in time -/
+def matchSpecTimedOut (n : Nat) (obs : Sx) : Bool :=
+  match field? obs "items", field? obs "residue" with
+  | some items, some residue =>
+    let pairs := items.filterMap fun
+      | .list [_, a, b] => match a.asNat?, b.asNat? with
+        | some a, some b => some (a, b)
+        | _, _ => none
+      | _ => none
+    let left := residue.filterMap fun
+      | .list [k, .atom "req"] => k.asNat?
+      | _ => none
+    pairs.length == items.length && left.length == residue.length &&
+      pairs.all (fun (a, b) => a == b && 1 ≤ a && a ≤ n) && (pairs.map (·.1)).eraseDups.length == pairs.length &&
+      left.all (fun k => !(pairs.map (·.1)).contains k)
+  | _, _ => false
+
 def judgeMatch (proto payload impl : String) : Verdict :=
   match shapesOf proto, Sx.parse payload with
   | some sh, some (.list [n, order]) =>
@@ -59,11 +78,13 @@ def judgeMatch (proto payload impl : String) : Verdict :=
       let w0 : World := { sh := {}, tasks := [{ kind := .half .req, remaining := n }, { kind := .half .resp, remaining := n }] }
       let w := runSchedule sh (order.length + 40 * n + 40) w0 order
       let m := observeMatch w
+      let timedOut := w.tasks.any (·.gaveUp)
+      let specOn (o : Sx) : Bool := if timedOut then matchSpecTimedOut n o else matchSpecHolds n o
       let implOk := match Sx.parse impl with
-        | some o => matchSpecHolds n o
+        | some o => specOn o
         | none => false
       let switches := (order.zip order.tail).filter (fun (a, b) => a != b) |>.length
-      { corr := m.toStr == impl, implSpec := implOk, modelSpec := matchSpecHolds n m,
+      { corr := m.toStr == impl, implSpec := implOk, modelSpec := specOn m,
         nontrivial := switches ≥ 2, cls := s!"n={n},switches={min switches 6}",
         model := m.toStr, spec := s!"items=(k,k) for k=1..{n} once each; residue empty" }
     | _, _ => .bad "bad-case"
